@@ -29,10 +29,11 @@ Proof.
   intros Hp Hw. unfold x_watch. rewrite Hw, Hp. cbn [negb].
   unfold full, cpu_values, var_values.
   destruct (wp_cpu C) eqn:Ec; destruct (wp_var C) eqn:Ev; try discriminate;
-    destruct (w_inited X); destruct (w_cpu X =? o_cpu o)%Z;
+    destruct (w_inited X); destruct (w_cpu X =? o_cpu o)%Z eqn:EZ;
     destruct (v_copy X) as [y|]; rewrite ?N.eqb_refl;
     try destruct (o_var o =? y); destruct (g_init X); destruct (o_var o =? g_val X);
-    cbn -[N.modulo W64 N.add N.sub]; repeat split; intros; try reflexivity; try discriminate.
+    cbn -[N.modulo W64 N.add N.sub]; repeat split; intros; try reflexivity; try discriminate;
+    try (apply Z.eqb_eq in EZ; exact EZ).
 Qed.
 
 (* ---------------------------------------------------------------- cpu: event iff changed *)
@@ -96,14 +97,35 @@ Lemma var_watch_legacy_refuted :
 Proof. split; reflexivity. Qed.
 
 (* ---------------------------------------------------------------- the MAX_EVENT limit *)
-(* with MAX_EVENT events pending nothing is queued, but the cpu observation is still overwritten:
-   that change is never reported *)
-Lemma watch_limit C f pos o X : full (pend X) = true -> wp_cpu C = true ->
-  pend (x_watch C f pos o X) = pend X /\ w_cpu (x_watch C f pos o X) = o_cpu o.
+(* with MAX_EVENT events pending the hook observes nothing: nothing is queued and the watch state keeps the
+   old observations (cpu number, copy of the variable, global item), so the next hook that finds a free
+   slot reports the change *)
+Lemma watch_limit C f pos o X : full (pend X) = true -> w_inited X = true ->
+  pend (x_watch C f pos o X) = pend X /\ w_cpu (x_watch C f pos o X) = w_cpu X /\
+  v_copy (x_watch C f pos o X) = v_copy X /\ g_init (x_watch C f pos o X) = g_init X /\
+  g_val (x_watch C f pos o X) = g_val X.
 Proof.
-  intros Hf Hc. unfold x_watch. rewrite Hc. cbn [orb negb]. rewrite Hf. cbn [negb andb].
-  rewrite andb_false_r. rewrite Hf. cbn [negb]. rewrite andb_false_r. cbn [andb pend w_cpu]. split; reflexivity.
+  intros Hf Hi. unfold x_watch. destruct (negb (wp_cpu C || wp_var C)); [auto|].
+  rewrite Hf. cbn [negb andb]. rewrite !andb_false_r. cbn [andb pend w_cpu v_copy g_init g_val].
+  rewrite Hf. cbn [negb]. rewrite !andb_false_r. cbn [andb]. auto.
 Qed.
+
+(* LEGACY: the cpu number was remembered although no event could be stored: the change was lost *)
+Definition full_x (c : Z) : xpart :=
+  let e := {| a_ev := {| e_time := 0; e_id := 0; e_data := [] |}; a_idx := 0 |} in
+  {| xs := []; pend := [e; e; e; e]; w_inited := true; w_cpu := c; v_copy := None; g_init := false; g_val := 0;
+     xout := [] |}.
+Definition cpu_cfg : xcfg :=
+  {| xb := plain 0 1024 1024 PG; read_of := fun _ => 0; wp_cpu := true; wp_var := false; pmu_ok := false |}.
+Definition ocpu' (c : Z) : oval :=
+  {| o_statm := []; o_pf := []; o_cycle := []; o_cache := []; o_branch := []; o_cpu := c; o_var := 0; o_asz := None |}.
+Lemma watch_limit_legacy_refuted :
+  (* the queue is full, the cpu changes 1 -> 2; then the queue is drained and the next hook still sees 2 *)
+  let X1 := x_watch cpu_cfg (dummy_frame 100) 0 (ocpu' 2) (full_x 1) in
+  let L1 := x_watch_cpu_legacy cpu_cfg (dummy_frame 100) 0 (ocpu' 2) (full_x 1) in
+  cpu_values (map a_ev (pend (x_watch cpu_cfg (dummy_frame 110) 0 (ocpu' 2) (set_pend X1 [])))) = [2] /\
+  cpu_values (map a_ev (pend (x_watch cpu_cfg (dummy_frame 110) 0 (ocpu' 2) (set_pend L1 [])))) = [].
+Proof. split; reflexivity. Qed.
 
 (* with room, a cpu event is queued exactly when the value differs from the previous observation
    (or this is the first observation) *)
